@@ -276,7 +276,7 @@ CLAIMS = {
     "C16": {"text": "Theorems on the record-layer model, for every step length dt (rows are indexed by temporal unit: step j writes row j*dt, rows in between keep the fill value): rows_faithful, rows_fill, run_time, stepwise_eq_loop (a run is its first i steps continued by the others: one step at a time = loop), untracked_never_written, storage_independent (the log does not depend on which records are files), early_stop_intact, crash_row; and on tables REGENERATED from the source on every run: phase_order (the control statements of next_step - phase calls, the t > 1 guard, the try / except RuntimeError around distribution and ledgers, the increment - in order; two record writes that follow the same phase may be listed in any order), one_write_per_record, guards_complete (each write guard tests its own name against files then memory), helpers_write_own_row, specs_bijective, writes_after_their_phase. Partial: that memmap files read back equal the memory and that the JSON artefacts describe the run is library / OS behaviour, checked by reading back on generated runs (record subsets x register_stocks x loop / manual x stopping point).",
             "note": _NOTE + " The translator harness/translate.py (Python ast) is trusted to extract the statements of next_step and the record tables faithfully; unknown syntax is emitted as `unknown` items, which makes the theorems fail.",
             "technique": "Lean 4 theorems on a record-layer model + `rfl`/`decide` theorems on tables regenerated from the source by a translator + read-back of every record and JSON artefact"},
-    "C17": {"text": "Theorems run_function (the model is a function of its inputs), isolation (on a key -> file world: with pairwise distinct keys a simulation reads back exactly its own rows whatever else is constructed or run), fresh_defaults_distinct, shared_default_breaks_isolation (witness of the repaired defect), ingest_preserves and event_reusable (copy-before-mutate leaves caller objects unchanged), defaults_safe (`decide` on the default-argument table REGENERATED from the source: no default is a call evaluated at definition time, no mutable default is mutated). Partial: that the Python code follows the copying discipline and allocates keys per instance is a fact about object identity at run time, established only dynamically (deep snapshots of caller objects, interleaved histories of live simulations compared bitwise with isolated runs, Event reuse).",
+    "C17": {"text": "Theorems run_function (the model is a function of its inputs), isolation (on a key -> file world: with pairwise distinct keys a simulation reads back exactly its own rows whatever else is constructed or run), fresh_defaults_distinct, shared_default_breaks_isolation (witness of the repaired defect), ingest_preserves and event_reusable (copy-before-mutate leaves caller objects unchanged), defaults_safe (`decide` on the default-argument table REGENERATED from the source: no default is a call evaluated at definition time, no mutable default is mutated), masked_calls_deterministic / raw_allocs_filled (over the REGENERATED table of masked ufunc calls and raw allocations: no result cell can expose what freed memory holds; dynamic side: the same run with NaN blocks left in the allocator, bitwise). Partial: that the Python code follows the copying discipline and allocates keys per instance is a fact about object identity at run time, established only dynamically (deep snapshots of caller objects, interleaved histories of live simulations compared bitwise with isolated runs, Event reuse, later edits of the caller's containers leaving built objects unchanged).",
             "note": _NOTE + " The translator harness/translate.py is trusted for the default-argument table.",
             "technique": "Lean 4 theorems on storage / ownership models + `decide` on a regenerated default-argument table + dynamic isolation and snapshot checks"},
     "C02": {"text": "Theorem step_refines_spec: whatever the code-shaped model computes in one step satisfies ArioSpec, the documented ARIO equations written one per field with sums and no masks, caches or branches (overproduction rule, capacity, optimal and actual production with the tightest real input, proportional rationing, inventory resupply with the permitted skip, unmet final demand, reconstruction deliveries, order rule with both share variants); nextStep_econ ties it to the whole step, specDemand_eq to the cached demand. The tie to the code is the correspondence itself: every phase, every output, every cell (delivery matrix via the hook) on every explored step, ties of the threshold tests accepted; plus an independent NumPy transliteration of the documentation as oracle.",
@@ -289,7 +289,7 @@ CLAIMS = {
             "note": _NOTE, "technique": "Lean 4 theorems (induction over steps, simulation of the event-free run) + per-step correspondence of the event phases + paired runs"},
     "C11": {"text": "Theorems no_internal_error (from the well-formedness invariant, preserved by every step: C20's inv_step), ids_lifecycle / ids_receive (block ids of rebuilding events stay distinct and in range, also when events finish), demand_own_block, other_blocks_empty, credit_own_block, finished_no_more, aggregates_perm, rebuild_total_perm, the Layout theorems (writer and reader address the same columns; blocks disjoint and covering) together with the regenerated slice table of the source (Gen/Slices.lean; writer_is_layout, reader_is_layout, code_writer_reader_agree: the column expressions of update_rebuild_demand and rebuild_prod_*_event are those ranges for all sizes), and perm_invariant_run: two simulations that differ only by the order of their event list have, after any number of steps, the same observable state (everything the records expose, and the same events with the same ledgers, block ids aside) and one run succeeds iff the other does - by a simulation relation preserved by every phase, induction over the run. 'Beyond rounding' for the implementation and the three ways of adding events are checked on paired runs (shuffled lists at 1e-9, adding modes bitwise).",
             "note": _NOTE, "technique": "Lean 4 theorems (invariant by induction; simulation relation up to block renaming for order independence) + per-step correspondence of the whole event layer + paired runs"},
-    "C20": {"text": "Theorems: the documented rejections that are decision logic of the model (psi above 1, schedule outside the horizon, capital loss above the stock, negative capacity); params_ok / init_econ_ok / tracker_init_ok (constructors establish well-formedness); inv_step and inv_reach (every physical quantity stays non-negative along every run); no_silent_failure (a step ends in ok, the crashed flag or a documented rejection, never another exception). Partial: float overflow is outside the model; the validators that live in pandas/pymrio plumbing (incomplete table, unknown labels, wrong types, record names) are exercised by a malformed-input stream against the real constructors, not modelled.",
+    "C20": {"text": "Theorems: the documented rejections that are decision logic of the model (psi above 1, schedule outside the horizon, capital loss above the stock, negative capacity); the numeric rejections of the event constructors incl. a negative rebuilding share and a non-positive rebuilding factor (event_*_rejected; event_accepted_rebuild, tracker_init_ok_accepted: an accepted rebuilding event starts with non-negative ledgers); params_ok / init_econ_ok / tracker_init_ok (constructors establish well-formedness); masked_calls_deterministic / raw_allocs_filled over the regenerated table of masked ufunc calls (no NaN from recycled memory); inv_step and inv_reach (every physical quantity stays non-negative along every run); no_silent_failure (a step ends in ok, the crashed flag or a documented rejection, never another exception). Partial: float overflow is outside the model; the validators that live in pandas/pymrio plumbing (incomplete table, unknown labels, wrong types, record names) are exercised by a malformed-input stream against the real constructors, not modelled.",
             "note": _NOTE, "technique": "Lean 4 theorems (invariant by induction) + per-step correspondence + malformed-input stream on the real validators + finiteness/sign oracle on every state"},
     "C01": {"text": "Theorems init_at_equilibrium, equilibrium_step, equilibrium_forever (induction over steps), equilibrium_loop: for every balanced non-negative table with non-negative value added, of any size and sparsity (zero-output industries, unused inputs), and every accepted configuration, the event-free run reproduces the equilibrium exactly in the rational model and never rejects, crashes or fails; equilibrium_step_needs_capital_nonneg shows the capital hypothesis is necessary. mkParams and all six phases are compared with the code on event-free runs.",
             "note": _NOTE, "technique": "Lean 4 theorems (fixed point + induction) + correspondence of construction and of every phase on event-free runs"},
